@@ -39,9 +39,11 @@ def build(rng, quick):
     if not ok:
         return None
     segs = list(zip([0] + cuts, cuts + [nx]))
+    on_grid = [rng.random() < 0.4 for _ in cuts]
     ref_blocks, match_blocks = [], []
     for k, (a, b) in enumerate(segs):
         lo, hi = a + 1, b - 2
+        at_splice = k < len(cuts) and on_grid[k] and rng.random() < 0.5
         if k == 0 or not front:
             # two blocks (two baths) in the first segment, one elsewhere
             if k == 0:
@@ -52,6 +54,12 @@ def build(rng, quick):
                 w = rng.randint(1, 3)
                 s0 = rng.randint(lo, hi - w)
                 ref_blocks.append((s0, s0 + w, rng.randrange(2)))
+            if at_splice:
+                # the last reference block of this segment runs up to and includes the location AT the splice (x = s: downstream)
+                i0, i1, bk = ref_blocks[-1]
+                ref_blocks[-1] = (i0 if i1 >= b - 4 else b - 2, b, bk) if i1 >= b - 4 else ref_blocks[-1]
+                if ref_blocks[-1][1] != b:
+                    ref_blocks.append((b - 1, b, bk))
         else:
             # matching: a head block inside a reference block of segment 0 (or any earlier block), a tail block here
             w = rng.randint(1, 2)
@@ -62,7 +70,7 @@ def build(rng, quick):
             match_blocks.append(((h0, h0 + w), (t0, t0 + w)))
     if front and not match_blocks and rng.random() < 0.5:
         return None
-    layout = dict(ref_blocks=ref_blocks, match_blocks=match_blocks, trans_idx=[(cidx, rng.random() < 0.4) for cidx in cuts])
+    layout = dict(ref_blocks=ref_blocks, match_blocks=match_blocks, trans_idx=[(cidx, og) for cidx, og in zip(cuts, on_grid)])
     c = fibre.make_case(rng, double=double, nx=nx, nt=nt, span=rng.choice([20.0, 100.0, 500.0, 2000.0]), noise=0.0,
                         var_kind=rng.choice(["float", "array", "callable"]), layout=layout, irregular=rng.random() < 0.3)
     # options
